@@ -2,7 +2,9 @@
 
 use vcore::Tier;
 
+mod c26;
 mod c27;
+mod c30;
 
 fn main() {
     let args: Vec<String> = std::env::args().collect();
@@ -17,7 +19,9 @@ fn main() {
         _ => Tier::Quick,
     };
     let code = match prop {
-        "C27" => c27::main(tier, replay),
+        "C26" => c26::main(tier, replay.clone()),
+        "C27" => c27::main(tier, replay.clone()),
+        "C30" => c30::main(tier, replay.clone()),
         _ => {
             eprintln!("unknown property {}", prop);
             2
